@@ -18,6 +18,7 @@ var gateMu sync.Mutex
 var gates = map[gateKey]chan struct{}{}
 var gateAll = map[string]bool{} // point -> armed for every client
 var notifyAll = map[string]bool{} // point -> announce "AT <point> <id>" without holding the client
+var gateOnce = map[string]bool{}  // point -> hold the FIRST goroutine that arrives (whoever it is), then disarm
 
 func gateArm(point string, id int64) {
 	gateMu.Lock()
@@ -29,11 +30,18 @@ func gateArm(point string, id int64) {
 	gates[gateKey{point, id}] = make(chan struct{})
 }
 
+func gateArmOnce(point string) {
+	gateMu.Lock()
+	defer gateMu.Unlock()
+	gateOnce[point] = true
+}
+
 func gateRelease(point string, id int64) {
 	gateMu.Lock()
 	defer gateMu.Unlock()
 	if id == 0 {
 		delete(gateAll, point)
+		delete(gateOnce, point)
 		for k, ch := range gates {
 			if k.point == point {
 				close(ch)
@@ -63,6 +71,13 @@ func gateWait(point string, id int64) {
 	if !ok && gateAll[point] {
 		ch = make(chan struct{})
 		gates[gateKey{point, id}] = ch
+		ok = true
+	}
+	if !ok && gateOnce[point] {
+		// (kept under an id of its own: the point reports no client id, and later arrivals must pass)
+		delete(gateOnce, point)
+		ch = make(chan struct{})
+		gates[gateKey{point, -1}] = ch
 		ok = true
 	}
 	gateMu.Unlock()
